@@ -1991,7 +1991,11 @@ class UserActions(object):
     # We don't set the values of formula columns, they should just recalculate themselves
     if not col.is_formula():
       row_ids, values = col.rename_choices(renames)
-      values = [encode_object(v) for v in values]
+      # rename_choices() goes over all slots of the column, including the empty record and removed
+      # rows (which hold the default ''); only update rows that exist.
+      existing = [(r, v) for (r, v) in zip(row_ids, values) if r in table.row_ids]
+      row_ids = [r for (r, v) in existing]
+      values = [encode_object(v) for (r, v) in existing]
       self.BulkUpdateRecord(table_id, row_ids, {col_id: values})
 
     # Helper to rename only string values
@@ -2009,7 +2013,8 @@ class UserActions(object):
         continue
       col_filter = json.loads(rec.filter)
       new_filter = {
-        include_exclude: [rename(value) for value in values]
+        # Only lists of values are affected (not e.g. the bounds of a range filter).
+        include_exclude: ([rename(value) for value in values] if isinstance(values, list) else values)
         for include_exclude, values in col_filter.items()
       }
       if col_filter != new_filter:
